@@ -628,7 +628,7 @@ MODELLED_NOT_PROVED = [
 # layer kinds of Serialize.lean (the Lean model answers `unmodelled` for option lists whose size/write libtins computes
 # inconsistently — C02's findings — and those cases are then compared against the oracle only)
 MODELLED_KINDS = {"eth", "dot1q", "ip", "ip6", "tcp", "udp", "icmp", "icmp6", "raw", "pppoe", "mpls", "dot3", "snap",
-                  "loop", "sll", "ah", "esp"}
+                  "loop", "sll", "ah", "esp", "llc", "eapol", "radiotap"}
 
 
 def is_modelled(op):
